@@ -5,6 +5,7 @@ open Rio Rio.Driver
 
 def dispatch (line : String) : String :=
   match (line.trimAscii.toString.splitOn " ").filter (· ≠ "") with
+  | ["skip"] => "skip"
   | "path" :: rest => pathEngine rest
   | "hash" :: rest => hashEngine rest
   | "filt" :: rest => filtEngine rest
